@@ -459,7 +459,19 @@ func waitJanitorsIdle() bool {
 			if i := strings.IndexByte(g, '\n'); i >= 0 {
 				hdr = g[:i]
 			}
-			if !strings.Contains(hdr, "[select") {
+			// idle = parked in a select or a channel receive of the janitor's own loop (the innermost frame that
+			// is not the runtime's belongs to package cache), whichever way the loop is written
+			idle := false
+			if strings.Contains(hdr, "[select") || strings.Contains(hdr, "[chan receive") {
+				for _, ln := range strings.Split(g, "\n")[1:] {
+					if strings.HasPrefix(ln, "\t") || strings.HasPrefix(ln, "runtime.") || strings.HasPrefix(ln, "time.") {
+						continue // file:line rows, runtime frames
+					}
+					idle = strings.HasPrefix(ln, "github.com/fufuok/cache.")
+					break
+				}
+			}
+			if !idle {
 				busy = true
 				// waiting for a lock / semaphore / channel other than its select: nobody is left who could
 				// release it (the calling goroutine is the only other party and it is here, polling)
